@@ -10,6 +10,8 @@ pub enum Call {
     HoleValue(Seq<u8>, int),            // write_hole_value(label, value)
     HoleFmt(Seq<u8>, int, Formatter),   // write_hole_fmt(label, value, formatter)
     HoleLabel(Seq<u8>),                 // write_hole_label(label)
+    RawStr(Seq<u8>),                    // fmt::Write::write_str(s): text pushed past the template-aware methods
+    RawChar(char),                      // fmt::Write::write_char(c)
 }
 pub tracked struct Out {
     pub ghost calls: Seq<(Call, bool)>,
@@ -18,7 +20,21 @@ pub tracked struct Out {
 // Mirror of `template::Write` (template.rs:333-371), the four members the bodies call (the
 // `fmt::Write` supertrait and the default bodies, which go through `format_args!`, are left out).
 // Every call is recorded in `out` with its real arguments and its result.
-pub trait Write {
+// (`FmtWrite` stands for the supertrait `core::fmt::Write`: a writer can also be fed raw text, which is a
+// different event from any of the four template-aware calls)
+pub trait FmtWrite {
+    fn write_str(&mut self, s: &str, Tracked(out): Tracked<&mut Out>) -> (r: fmt::Result)
+        ensures final(out).calls == old(out).calls.push((Call::RawStr(s.spec_bytes()), r is Ok));
+    fn write_char(&mut self, c: char, Tracked(out): Tracked<&mut Out>) -> (r: fmt::Result)
+        ensures final(out).calls == old(out).calls.push((Call::RawChar(c), r is Ok));
+}
+impl<'a, W: FmtWrite + ?Sized> FmtWrite for &'a mut W {
+    #[verifier::external_body]
+    fn write_str(&mut self, s: &str, Tracked(out): Tracked<&mut Out>) -> (r: fmt::Result) { unimplemented!() }
+    #[verifier::external_body]
+    fn write_char(&mut self, c: char, Tracked(out): Tracked<&mut Out>) -> (r: fmt::Result) { unimplemented!() }
+}
+pub trait Write: FmtWrite {
     fn write_text(&mut self, text: &str, Tracked(out): Tracked<&mut Out>) -> (r: fmt::Result)
         ensures final(out).calls == old(out).calls.push((Call::Text(text.spec_bytes()), r is Ok));
     fn write_hole_value(&mut self, label: &str, value: Value, Tracked(out): Tracked<&mut Out>) -> (r: fmt::Result)
